@@ -2,28 +2,53 @@ package main
 
 import (
 	"fmt"
+	"io"
+	"strings"
+	"time"
 
+	"github.com/versity/versitygw/s3api/utils"
 	"verif/checks"
 	"verif/gw"
 )
 
-func main() {
-	w := checks.NewWorld("dbg", gw.Opts{})
-	defer w.Close()
-	adm := gw.Creds{Access: "adm1", Secret: "adm1secretadm1secret"}
-	bad := 0
-	for i := 0; i < 400; i++ {
-		for _, q := range []string{"acl", "tagging", "versions", ""} {
-			r := &gw.Req{Method: "GET", Path: "/bk-main", Query: q}
-			gw.Sign(r, adm, gw.SignOpts{})
-			resp := w.F.G.Do(r)
-			if resp.Status == 403 {
-				bad++
-				if bad < 4 {
-					fmt.Println(i, q, resp.String()[:200], r.Headers)
-				}
-			}
-		}
+type src struct {
+	data []byte
+	off  int
+	plan []int
+}
+
+func (s *src) Read(p []byte) (int, error) {
+	if s.off >= len(s.data) {
+		return 0, io.EOF
 	}
-	fmt.Println("bad", bad)
+	n := len(s.data) - s.off
+	if len(s.plan) > 0 {
+		n = s.plan[0]
+		s.plan = s.plan[1:]
+	}
+	if n > len(p) {
+		n = len(p)
+	}
+	copy(p, s.data[s.off:s.off+n])
+	s.off += n
+	return n, nil
+}
+
+func main() {
+	t := time.Date(2026, 9, 28, 12, 0, 0, 0, time.UTC)
+	sec := "c12secretc12secretc12"
+	seed := gw.Signed{Time: t, Region: gw.Region, Signature: strings.Repeat("ab", 32), Key: gw.SigningKey(sec, gw.Region, t), Scope: t.Format("20060102") + "/" + gw.Region + "/s3/aws4_request"}
+	payload := checks.Pattern(3, 5)
+	enc, _ := gw.EncodeSigned(seed, [][]byte{payload}, "crc32")
+	fmt.Printf("len=%d\n%q\n", len(enc), enc)
+	for _, cut := range []int{297, 296, 250, len(enc)} {
+		s := &src{data: enc, plan: []int{cut}}
+		ad := utils.AuthData{Signature: seed.Signature}
+		rd, _ := utils.NewSignedChunkReader(s, ad, gw.Region, sec, t, "x-amz-checksum-crc32", false)
+		buf := make([]byte, 4096)
+		n, err := rd.Read(buf)
+		fmt.Println(cut, n, err)
+		n, err = rd.Read(buf)
+		fmt.Println("  second", n, err)
+	}
 }
